@@ -10,3 +10,4 @@ import LyModel.Props.C02
 #print axioms LyModel.Props.C02.dup_family_loop
 #print axioms LyModel.Props.C02.minmax_family
 #print axioms LyModel.Props.C02.state_family
+#print axioms LyModel.Props.C02.validate_ok_iff_valid
